@@ -934,7 +934,7 @@ func (vm *VM) throwGenErr(err error) error {
 		if e.fileSet == nil {
 			e.fileSet = vm.bytecode.FileSet
 		}
-		return vm.throw(e, true)
+		return vm.throw(e, false)
 	} else if e, ok := err.(*Error); ok {
 		return vm.throw(vm.newError(e), false)
 	}
